@@ -77,6 +77,56 @@ func shapeScripts(seed int64) []Driver {
 				}
 			}
 		}
+		// bursts: a new_stream that is refused at stream level (unknown method, unsupported
+		// revision, shutting down) is handed over together with the next frames, which belong to
+		// other streams - the refusal must still go to the refused stream and nothing else may
+		// happen to the others
+		for _, why := range []string{"method", "revision", "shutdown"} {
+			for _, next := range []string{"msg", "half", "new", "new+msg"} {
+				for _, mid := range []bool{false, true} {
+					l := []string{"open t=0 md=who=s peer=p0", "ds t=0",
+						"rawc t=0 id=1 kind=new method=%2Fv.S%2FBD0 rev=1 win=65536 md=-", "dc t=0", "hrecv r=0"}
+					if why == "shutdown" {
+						l = append(l, "shutdown")
+					}
+					refused := "rawc t=0 id=2 kind=new method=%2Fv.S%2FBD1 rev=1 win=65536 md=-"
+					switch why {
+					case "method":
+						refused = "rawc t=0 id=2 kind=new method=%2Fv.S%2Fnosuch rev=1 win=65536 md=-"
+					case "revision":
+						refused = "rawc t=0 id=2 kind=new method=%2Fv.S%2FBD1 rev=7 win=65536 md=-"
+					}
+					var burst []string
+					if mid {
+						burst = append(burst, "rawc t=0 id=1 kind=msg size=5 len=5")
+					}
+					burst = append(burst, refused)
+					switch next {
+					case "msg":
+						burst = append(burst, "rawc t=0 id=1 kind=msg size=9 len=9")
+					case "half":
+						burst = append(burst, "rawc t=0 id=1 kind=half")
+					case "new":
+						if why != "shutdown" {
+							burst = append(burst, "rawc t=0 id=3 kind=new method=%2Fv.S%2FU2 rev=1 win=65536 md=-")
+						} else {
+							burst = append(burst, "rawc t=0 id=1 kind=msg size=3 len=3")
+						}
+					case "new+msg":
+						if why != "shutdown" {
+							burst = append(burst, "rawc t=0 id=3 kind=new method=%2Fv.S%2FU2 rev=1 win=65536 md=-", "rawc t=0 id=1 kind=msg size=9 len=9")
+						} else {
+							burst = append(burst, "rawc t=0 id=1 kind=msg size=3 len=3", "rawc t=0 id=1 kind=half")
+						}
+					}
+					l = append(l, burst...)
+					l = append(l, fmt.Sprintf("dc t=0 n=%d", len(burst)))
+					l = append(l, "hrecv r=0", "hrecv r=0", "hsend r=0 size=20", "hret r=0 code=0 size=12")
+					l = append(l, rep("ds t=0", 8)...)
+					add(Config{Mode: mode, RawClient: true}, l)
+				}
+			}
+		}
 		// raw tunnel server -> real tunnel client
 		for _, shape := range []string{"U", "CS", "SS", "BD"} {
 			for k := 0; k <= 3; k++ {
